@@ -145,7 +145,7 @@ Open Scope string_scope.
    everything else ends in a lazily checked constructor (Sum / AddedDiag ...): opaque here, direct predicate only *)
 Definition model_pair_add (c : string) (a : shape) (rc : string) (b : shape) : option verdict :=
   let d := def_of c E_add in
-  if String.eqb d "ZeroLinearOperator" then Some (of_res (lib_zero_add a b))
+  if String.eqb d "ZeroLinearOperator" then Some (of_res (pinned_zero_add a b))
   else if isinst rc "ZeroLinearOperator" then
     if is_any d ["LinearOperator"; "SumLinearOperator"] then Some (of_res (pinned_add_zero_operand a b)) else None
   else if String.eqb d "ConstantDiagLinearOperator" && isinst rc "ConstantDiagLinearOperator" then
